@@ -30,7 +30,7 @@ def main(tier):
     # (1) model
     wd = os.path.join(ck.dir, "mcz")
     tlc.stage(wd)
-    fs = forests.all_forests(3) + (rng.sample(forests.all_forests(4), 6) if quick else forests.all_forests(4) + rng.sample(forests.all_forests(5), 10))
+    fs = forests.all_forests(3) + (rng.sample(forests.all_forests(4), 6) if quick else forests.all_forests(4) + rng.sample(forests.all_forests(5), 4))
 
     def one(a):
         i, f = a
